@@ -203,14 +203,14 @@ class StyleFor:
             if name is None:
                 index = page_type.index
                 offset = index + 1 - b
-                return offset == 0 if a == 0 else (offset / a >= 0 and not offset % a)
+                return offset == 0 if a == 0 else (offset * a >= 0 and not offset % a)
             if name != page_type.name:
                 return False
             for group_name, index in page_type.groups:
                 if name != group_name:
                     continue
                 offset = index + 1 - b
-                if (offset == 0 if a == 0 else (offset / a >= 0 and not offset % a)):
+                if (offset == 0 if a == 0 else (offset * a >= 0 and not offset % a)):
                     return True
             return False
         return True
